@@ -8,6 +8,7 @@ import RsModel.Lemmas.MappedNE
 import RsModel.Lemmas.ReplayMap
 import RsModel.Lemmas.ColdStrip
 import RsModel.Lemmas.WarmTree
+import RsModel.Lemmas.WarmMap
 /-!
 # C10 — CachedSource is transparent for every call history
 -/
@@ -316,5 +317,24 @@ example : (Src.concat (.cons (.cached 0 (.orig [97, 59, 98] [102])) (.cons (.raw
   rcases hm with rfl | rfl
   · exact ⟨by decide, fun o ho => by cases ho; exact ⟨by decide, by decide, by decide, fun k hk => by cases hk⟩⟩
   · exact ⟨by decide, fun o ho => by cases ho; exact ⟨by decide, by decide, by decide, fun k hk => by cases hk⟩⟩
+
+
+/-- **`map()` twice on a tree with warm caches** (columns = true): `s` is a tree of the domain of C03 with CachedSource nodes at any
+depth and in any number (none beneath a ReplaceSource — K5), on cold caches.  The first `get_map` stores, in every CachedSource, the
+map built from its subtree's text-less stream; the second `get_map` finds those entries, and every outermost CachedSource replays its
+text through the stored map.  Resolving every position of `source()` through the second map and its own `sources` / `names` tables
+gives the same file name, original line, original column and name as through the first.  Chain: C03 name level on the cold tree
+(`getMap_names`) ∘ the second call is the stream of the replay tree (`Src.stream_fills`, `Src.stream_warm`) ∘ the replay tree is in
+the domain of C03 (`stored_map_ok`: a stored map is sorted, inside its text, with indices inside its tables) ∘ C03 name level on the
+replay tree ∘ the replay of a subtree attributes like the subtree (C08 name level `streamSM_attrN` ∘ C03 on the subtree) ∘
+ConcatSource composes at name level (`concatStream_NA`).  Mapping values below 2³¹ (`SmallF`, `hsmall*`: the codec's domain). -/
+theorem c10_map_twice (s : Src) (σ : Store) (h : s.ModeHypC) (hk : s.CachedOK) (hs : s.SmallF) (hn : s.ids.Nodup) (hc : Cold σ s.ids)
+    (f1 f2 : Bool)
+    (hsmall1 : ∀ m ∈ chunkMs (s.stream ⟨true, true⟩ σ).1.evs, m.small)
+    (hsmall2 : ∀ m ∈ chunkMs ((s.warm ⟨true, true⟩).stream ⟨true, true⟩ []).1.evs, m.small)
+    (sm1 sm2 : SMap) (h1 : (getMap s ⟨true, f1⟩ σ).1 = some sm1) (h2 : (getMap s ⟨true, f2⟩ (getMap s ⟨true, f1⟩ σ).2).1 = some sm2) :
+    (attrFrom (decode sm2.mappings) startPos s.src).map (Option.map (resolveMF sm2))
+      = (attrFrom (decode sm1.mappings) startPos s.src).map (Option.map (resolveMF sm1)) :=
+  getMap_twice s σ h hk hs hn hc f1 f2 hsmall1 hsmall2 sm1 sm2 h1 h2
 
 end Rs
